@@ -787,7 +787,12 @@ impl KotoVm {
                     self.execution_state = ExecutionState::Suspended;
                     return Ok(value);
                 }
-                Err(error) => match self.pop_call_stack_on_error(error.clone(), true) {
+                // Timeouts can't be caught, including those raised in nested calls
+                // (e.g. in iterator callbacks, generators, or overridden operators).
+                Err(error) => match self.pop_call_stack_on_error(
+                    error.clone(),
+                    !matches!(error.error, ErrorKind::Timeout(_)),
+                ) {
                     Ok((recover_register, ip)) => {
                         let catch_value = match error.error {
                             ErrorKind::KotoError { thrown_value, .. } => thrown_value,
